@@ -1,5 +1,7 @@
 package models
 
+import "io"
+
 // Comparison-only model of unicode/utf8.DecodeRuneInString (no table lookups).
 func verifModel_utf8_DecodeRuneInString(s string) (rune, int) {
 	n := len(s)
@@ -423,4 +425,9 @@ func verifModel_math_Min(x, y float64) float64 {
 		return x
 	}
 	return y
+}
+
+// text/template.JSEscape: same bytes as the real function (written with one Write call).
+func verifModel_template_JSEscape(w io.Writer, b []byte) {
+	w.Write([]byte(verifModel_template_JSEscapeString(string(b))))
 }
